@@ -60,7 +60,7 @@ type checkSpec struct {
 }
 
 var realCommon = []string{"all of google/pprof's packages profile and internal/{driver,report,graph,binutils,symbolizer,symbolz,transport,measurement,elfexec} (instrumented copies of the current working tree)", "html/template, encoding/json, regexp, compress/gzip, net/http client front half and httptest recorder"}
-var stubCommon = []string{"kernel filesystem (simos in-memory disk with fault and crash model)", "goroutine scheduler (simrt baton scheduler driven by the choice tape)", "sync primitives' blocking behaviour (simsync model + real primitive)", "clock (simtime)", "external programs dot/addr2line/nm/objdump/browsers (simexec scripts)", "terminal, flags, output writer (plug-in seams)", "HTTP listener (handlers called directly through the HTTPServer seam)", "remote servers (http.RoundTripper seam)"}
+var stubCommon = []string{"kernel filesystem (simos in-memory disk with fault and crash model)", "goroutine scheduler (simrt baton scheduler driven by the choice tape)", "sync primitives' blocking behaviour (simsync model + real primitive)", "clock (simtime)", "external programs dot/addr2line/nm/objdump/browsers (simexec scripts)", "terminal, flags, output writer (plug-in seams)", "HTTP listener (handlers called directly through the HTTPServer seam)", "remote servers and the TLS layer (C16 and the C20 fetch scenario run pprof's own internal/transport over simhttp, a simulated TLS network with trusted and self-signed servers, in part of their runs; elsewhere the http.RoundTripper plug-in seam answers directly)", "terminal output writer: the engines' in-memory plugin.Writer, except C10 sessions that use pprof's own writer on the simulated disk"}
 
 var specs = map[string]*checkSpec{
 	"C02": {Prop: "C02", Engine: "c02", Pkg: "internal/driver", Level: "fault_enumeration", QuickS: 35, ThorS: 1500,
